@@ -15,7 +15,7 @@ ASSUME Lemma
 VARIABLES pg
 PageSpace == [cols : 1..3, rows : 2..4, fill : {"full", "ragged", "sparse"},
               feature : {"none", "stickout", "tinyline", "title", "headingcol", "bullets", "duplayer", "charlevel", "fineprint", "widetitle", "marginnums",
-                         "scale10", "scale01", "inverted", "rtl", "spaceonly", "shortlast", "justified", "repeatword", "nestedbullets", "numbered", "itemlist", "nestedlist"}]
+                         "scale10", "scale01", "inverted", "offsetbox", "rtl", "spaceonly", "shortlast", "justified", "repeatword", "nestedbullets", "numbered", "itemlist", "nestedlist"}]
 GInit == pg \in PageSpace /\ Init
 GNext == UNCHANGED <<pg, vars>> /\ FALSE
 GSpec == GInit /\ [][GNext]_<<pg, vars>>
